@@ -1024,6 +1024,10 @@ func isSingleStringLiteral(s string) bool {
 var bareNumberRe = regexp.MustCompile(`^[0-9]+(\.[0-9]+)?$`)
 
 // Parse aggregation function and return expression information
+// negIndexPathRe matches a plain column path: names separated by dots, with numeric (possibly negative)
+// or quoted-key indexes.
+var negIndexPathRe = regexp.MustCompile(`^[A-Za-z_][A-Za-z0-9_]*(\.[A-Za-z_][A-Za-z0-9_]*|\[-?[0-9]+\]|\['[^']*'\]|\["[^"]*"\])*$`)
+
 func ParseAggregateTypeWithExpression(exprStr string) (aggType aggregator.AggregateType, name string, expression string, allFields []string, err error) {
 	// 首先检测是否存在嵌套聚合函数
 	if err := detectNestedAggregation(exprStr); err != nil {
@@ -1096,6 +1100,12 @@ func ParseAggregateTypeWithExpression(exprStr string) (aggType aggregator.Aggreg
 			strings.HasSuffix(upperExpr, " IS NULL") || strings.HasSuffix(upperExpr, " IS NOT NULL") ||
 			strings.Contains(upperExpr, " LIKE ")) {
 			return "expression", "", exprStr, nil, nil
+		}
+
+		// A path whose only '-' is the sign of an index (arr[-1], d.l[-1].x) is a column reference:
+		// the documented negative index is resolved like any other index, not evaluated as arithmetic
+		if strings.Contains(trimmed, "[-") && negIndexPathRe.MatchString(trimmed) {
+			return "", "", "", nil, nil
 		}
 
 		// If not a function call but contains operators or keywords, it might be an expression
